@@ -243,6 +243,8 @@ package layer
 //@   props C01
 //@   requires l.verifiableReader != nil && l.verifiableReader.r != nil && l.verifiableReader.r.r != nil
 //@   ensures[C01] err == nil ==> l.r != nil && tocOf(payload(l.verifiableReader.r.r)) == tocDigest
+// ... and the reader the layer serves from afterwards is that verified reader, with chunk verification switched on
+//@   ensures[C01] err == nil ==> payload(l.r) == ref(l.verifiableReader.r) && l.verifiableReader.r.verify
 
 // ---- C07: a whiteout node is served only for a name that has no real entry ----
 // newInodes / newInodeOps: number of inodes created through go-fuse's NewInode and the dynamic type of the last one's
